@@ -220,6 +220,15 @@ func streamTruncate(ctx *Ctx) *Result {
 			if (err1 == nil) != (err2 == nil) {
 				return fmt.Sprintf("FAIL whole-read and one-byte-read disagree: %v / %v", err1, err2)
 			}
+			// the same with the disassembly option: a program that failed to load is not disassembled
+			var sink capBuf
+			_, err3 := bcl.LoadProg(bytes.NewReader(bs), "x", bcl.OptOutput(&sink), bcl.OptLogger(io.Discard), bcl.OptDisasm(true))
+			if (err1 == nil) != (err3 == nil) {
+				return fmt.Sprintf("FAIL LoadProg with and without OptDisasm disagree: %v / %v", err1, err3)
+			}
+			if err3 != nil && sink.Len() != 0 {
+				return fmt.Sprintf("FAIL a failed load wrote %d bytes of disassembly", sink.Len())
+			}
 			if err1 == nil {
 				return "accepted"
 			}
@@ -248,6 +257,10 @@ func streamTruncate(ctx *Ctx) *Result {
 			src = Render(ss, r, false)
 			if i%10 == 0 {
 				src = `print "` + strings.Repeat("s", []int{241, 2288, 300, 5000}[r.Intn(4)]) + `"` + "\n" + src
+			}
+			if i%10 == 1 {
+				// newlines far into the source: multi-byte entries at the very end of the dump
+				src = "#" + strings.Repeat("c", []int{240, 2290, 67830}[r.Intn(3)]) + "\n" + src + "\n"
 			}
 			prog, err := bcl.Parse([]byte(src), "input", bcl.OptOutput(io.Discard), bcl.OptLogger(io.Discard))
 			if err == nil {
